@@ -64,6 +64,21 @@ class Spec:
         return f'{self.prop}.{self.module}.{self.qualname}'
 
 
+class CallLogNotAvailable(Exception):
+    """A clause that reads the function's own call/event log cannot be evaluated at a call site: there the
+    log is the CALLER's.  contract_stub does not assume such clauses (weaker assumption = sound)."""
+
+
+def _clauses_for_call_site(fs, c):
+    out = []
+    for f in fs:
+        try:
+            out.append(f(c))
+        except CallLogNotAvailable:
+            continue
+    return out
+
+
 class Ctx:
     """What a contract clause sees: old/new state, arguments, result, raised exception."""
     def __init__(self, ex, old, new, self_ref, raised=None, result=None, args=None):
@@ -137,9 +152,13 @@ class Ctx:
 
     def calls(self, key=None):
         """stubbed calls made on this path (since function entry)"""
+        if getattr(self, 'callee_view', False):
+            raise CallLogNotAvailable()
         return [c for c in self.new_state.calls if key is None or c['key'] == key or c['key'].endswith('.' + key)]
 
     def events(self, name=None):
+        if getattr(self, 'callee_view', False):
+            raise CallLogNotAvailable()
         return [e for e in self.new_state.events if name is None or e[0] == name]
 
     def eq(self, a, b):
@@ -230,16 +249,18 @@ def contract_stub(spec_getter):
         s2, sets = havoc_state()
         r = ex.fresh(s2, spec.returns, 'ret_' + spec.qualname.replace('.', '_')) if spec.returns else VNone
         c1 = Ctx(ex, st, s2, recv, result=r, args=args)
-        o = Out(ret=r, sets=sets, assume=[f(c1) for _l, f in spec.ensures] + [f(c1) for _l, f in spec.always])
+        c1.callee_view = True
+        o = Out(ret=r, sets=sets, assume=_clauses_for_call_site([f for _l, f in spec.ensures] +
+                                                                [f for _l, f in spec.always], c1))
         o.assume.extend(s2.pc[len(st.pc):])
         o.normal = True
         outs.append(o)
         for cls, post in spec.raises.items():
             s3, sets3 = havoc_state()
             c2 = Ctx(ex, st, s3, recv, raised=cls, args=args)
-            assume = [f(c2) for _l, f in spec.always]
-            if post is not True:
-                assume.append(post(c2))
+            c2.callee_view = True
+            assume = _clauses_for_call_site([f for _l, f in spec.always] +
+                                            ([post] if post is not True else []), c2)
             assume.extend(s3.pc[len(st.pc):])
             outs.append(Out(exc=VExc(cls), sets=sets3, assume=assume))
         return outs
